@@ -33,7 +33,7 @@ theorem C19_holds (bounds : ApiEntry → List Bound) (hw : WellWired19 bounds) (
     (ha : accepts bounds u = true) : Legit u := by
   have hs := fun b hb => sat_of_accepts hw ha (b := b) hb
   unfold Legit
-  refine ⟨?_, ?_, ?_, ?_, ?_⟩
+  refine ⟨?_, ?_, ?_, ?_, ?_, ?_⟩
   · intro h
     have := hs .handler (by cases he : u.entry <;> simp_all [ApiEntry.needsHandler, required])
     simpa [sat] using this
@@ -51,6 +51,9 @@ theorem C19_holds (bounds : ApiEntry → List Bound) (hw : WellWired19 bounds) (
     have h1 := hs .default (by simp [h, required])
     have h2 := hs .restartable (by simp [h, required])
     exact ⟨by simpa [sat] using h1, by simpa [sat] using h2⟩
+  · intro h
+    have := hs .streamHandler (by rcases h with h | h <;> simp [h, required])
+    simpa [sat] using this
 
 /-- No bypass through type-erased or weak handles: `Sender<M>`, `Caller<M>`, `WeakSender<M>`,
     `WeakCaller<M>` can only be produced by entry points that carry the handler bound (and the
